@@ -178,6 +178,10 @@ def fresh(ctx: Ctx, rule="R-C20-FRESH") -> None:
     elif isinstance(fac, ast.Name) and fac.id in f.nested:
         r = [n for n in ast.walk(f.nested[fac.id].node) if isinstance(n, ast.Return)]
         body = r[0].value if r else None
+    elif isinstance(fac, ast.Attribute) and dotted(fac.value) == "self" and f.cls is not None and fac.attr in f.cls.methods:
+        # a bound method used as the factory: called by the event loop for every connection, like the lambda
+        r = C.own_returns(f.cls.methods[fac.attr])
+        body = r[0].value if len(r) == 1 else None
     if isinstance(body, ast.Call) and dotted(body.func) == "_HttpServerProtocol":
         sv = C.kw(body, "status") or (body.args[1] if len(body.args) > 1 else None)
         ok = dotted(sv) in ("self.health_status", "self._health_status")
